@@ -181,6 +181,33 @@ def async_request_facts():
             "sendOutsideLock": calls(outside, "_send_packet") and not calls([region], "_send_packet")}
 
 
+def read_folder_facts():
+    """SFTPServer._read_folder builds the NAME packet by hand: the entry count it writes and the entries it emits must
+    come from the same list, one entry per element, unconditionally.  True iff the AST shows
+    `msg.add_int(len(X))` and a `for … in X:` over the same name X whose body is a straight line of
+    add_string/_pack calls (no try/if/continue/break that could drop an entry)."""
+    from paramiko.sftp_server import SFTPServer
+
+    fn = ast.parse(textwrap.dedent(inspect.getsource(SFTPServer._read_folder))).body[0]
+    counted = None
+    for n in ast.walk(fn):
+        if (isinstance(n, ast.Call) and isinstance(n.func, ast.Attribute) and n.func.attr == "add_int" and n.args
+                and isinstance(n.args[0], ast.Call) and isinstance(n.args[0].func, ast.Name) and n.args[0].func.id == "len"
+                and isinstance(n.args[0].args[0], ast.Name)):
+            counted = n.args[0].args[0].id
+    loops = [n for n in ast.walk(fn) if isinstance(n, ast.For)]
+    ok = False
+    if counted is not None and len(loops) == 1:
+        lp = loops[0]
+        straight = all(isinstance(st, ast.Expr) and isinstance(st.value, ast.Call)
+                       and isinstance(st.value.func, ast.Attribute) and st.value.func.attr in ("add_string", "_pack")
+                       for st in lp.body)
+        names = sum(1 for st in lp.body if isinstance(st, ast.Expr) and isinstance(st.value, ast.Call)
+                    and isinstance(st.value.func, ast.Attribute) and st.value.func.attr == "add_string")
+        ok = (isinstance(lp.iter, ast.Name) and lp.iter.id == counted and straight and names == 2 and not lp.orelse)
+    return {"readdirCountMatchesEntries": ok}
+
+
 def lean_source():
     consts, branches, else_types, named = generate()
     pcounts, else_counts, helper_counts = path_counts()
@@ -212,6 +239,10 @@ def lean_source():
     L.append("/-- the same for the helpers a branch may call instead of a responder -/")
     L.append("def helperSendCounts : List (List Nat) := [%s]" % ", ".join(
         "[%s]" % ", ".join(map(str, helper_counts[k])) for k in sorted(helper_counts)))
+    L.append("/-- SFTPServer._read_folder: the count field of the NAME packet and the entries emitted come from the same "
+             "list, one (filename, longname, attrs) triple per element, unconditionally (AST) -/")
+    L.append("def readdirCountMatchesEntries : Bool := %s" % (
+        "true" if read_folder_facts()["readdirCountMatchesEntries"] else "false"))
     facts = async_request_facts()
     L.append("/-- SFTPClient._async_request: the packet is sent outside the region that holds self._lock (AST) -/")
     L.append("def sendOutsideLock : Bool := %s" % ("true" if facts["sendOutsideLock"] else "false"))
